@@ -293,3 +293,69 @@ Section System.
   Definition reply_verdict (r : reply R) : option verdict :=
     match r with RResult _ => Some Accept | RUnknownRpc v => Some v | RLocked => None end.
 End System.
+
+(* ---- how a proxy reaches a client: the name table of a context ------------------------------------------
+   QMI_Context keeps the RPC objects it hosts in a table object name -> object (_rpc_object_map).
+   make_rpc_object binds a free name to a new object of the given class (QMI_RpcObject.__init__ builds the
+   interface descriptor of type(self): if that fails no object exists) and returns a proxy built from the new
+   object's descriptor; remove_rpc_object frees the name.  Every acquisition route — the proxy returned by
+   make_rpc_object, get_rpc_object_by_name / get_instrument / get_task for a local name or from a peer
+   context, and the descriptors served by the `$context` object (get_rpc_object_descriptor(s), used by
+   list_rpc_objects) — reads the descriptor of the object bound to the name NOW: the model has no other state
+   a proxy could be built from (no remembered descriptors, on either side of a connection). *)
+Section Registry.
+  Variables (A R T : Type).
+  Variable teqb : T -> T -> bool.
+  Variable behave : cls -> name -> A -> list name -> list name * R.
+
+  Definition registry := list (name * object A T).
+
+  Inductive rop :=
+  | RCreate (n : name) (c : cls) (inst : list name)     (* make_rpc_object(n, class); inst = the new object's __dict__ *)
+  | RRemove (n : name)                                  (* remove_rpc_object *)
+  | RRequest (n : name) (o : op A T).                   (* a request / lock change delivered to the object named n *)
+
+  Definition bound (g : registry) (n : name) : option (object A T) := assoc n g.
+
+  Fixpoint rremove (n : name) (g : registry) : registry :=
+    match g with
+    | [] => []
+    | (m, x) :: r => if String.eqb n m then rremove n r else (m, x) :: rremove n r
+    end.
+
+  Definition rstep (g : registry) (o : rop) : registry :=
+    match o with
+    | RCreate n c i =>
+        match bound g n with
+        | Some _ => g                                    (* duplicate name: refused, nothing changes *)
+        | None => match make_descriptor c with
+                  | DOk _ => (n, (c, mkW None i [])) :: g
+                  | _ => g                               (* the constructor raises: no object *)
+                  end
+        end
+    | RRemove n => rremove n g
+    | RRequest n o =>
+        match bound g n with
+        | Some (c, st) => (n, (c, fst (step A R T teqb c (behave c) st o))) :: rremove n g
+        | None => g
+        end
+    end.
+
+  Fixpoint rrun (g : registry) (l : list rop) : registry :=
+    match l with [] => g | o :: r => rrun (rstep g o) r end.
+
+  (* the forwarding methods of the proxy a lookup of n yields (None: unknown name / no proxy can be built) *)
+  Definition rlookup (g : registry) (n : name) : option (list name) :=
+    match bound g n with
+    | Some (c, _) =>
+        match make_descriptor c with
+        | DOk d => match make_proxy d with Some p => Some (proxy_methods p) | None => None end
+        | _ => None
+        end
+    | None => None
+    end.
+End Registry.
+
+Arguments RCreate {A T}.
+Arguments RRemove {A T}.
+Arguments RRequest {A T}.
